@@ -20,3 +20,14 @@ def fill(chk):
         "ianasuite.py parses names only; draft-00 ChaCha suites have no registry entry; ECC under SSLv3 left open.",
         "exhaustive product enumeration (suite x version x role) with wire tap and independent record-layer witness",
         "DESIGN.md 3/C20")
+
+    chk("C14", "model_checking",
+        "Stateless exploration of the real endpoints under a scripted socket: every recv/send of both endpoints is a decision point; every execution of (handshake + data exchange + close) with <=1 deviation (quick, all flavours) / <=2 (thorough, four flavours) from the default answers is run to completion and must give the bit-identical observation of the unconstrained run (results, bytes, secrets, flags). Zero-deviation regimes (1- and 2-byte reads, would-block before every call, 1-byte sends, halves) under two stepping orders, the blocking API in either role, and MITM re-framing of plaintext handshake records (split at offsets, 1-byte fragments, 7-byte chunks) are run for every flavour.",
+        "Socket model as in mc/world.py MemSock (non-blocking; sendall raises after a partial write); record re-framing limited to plaintext handshake records; AsyncStateMachine not driven.",
+        "deviation-bounded stateless exploration (CHESS-style, deviation = non-default socket answer) of the implementation under a controlled transport/scheduler",
+        "DESIGN.md 3/C14")
+    chk("C17", "fault_enumeration",
+        "One transport fault (EOF/ECONNRESET at a recv, EPIPE/ECONNRESET at a send) injected at every I/O call index of either endpoint of each scenario x closeSocket x ignoreAbruptClose, every execution run to completion and both endpoints held to the containment rules (allowed exception types, closed, handshake never reported complete, session not resumable, delivered bytes a prefix, no spinning/stall against a closed socket); orderly-close post-conditions including an actual resumption; every placement of five alert kinds relative to data after the handshake and before plaintext handshake records.",
+        "Fault model: reset/epipe kill both directions, EOF is a half-close; one fault per execution (bound 1).",
+        "exhaustive single-fault placement over all I/O call indices with a deviation-bounded explorer",
+        "DESIGN.md 3/C17")
